@@ -916,6 +916,17 @@ func (m *lfsModule) handleHTTPUploadPart(w http.ResponseWriter, r *http.Request,
 		return
 	}
 
+	etag, err := m.s3Uploader.UploadPart(r.Context(), session.S3Key, session.UploadID, partNumber, body)
+	if err != nil {
+		m.metrics.IncS3Errors()
+		m.tracker.EmitUploadFailed(requestID, session.Topic, session.S3Key, "s3_upload_failed", err.Error(), "upload_part", session.TotalUploaded, 0)
+		m.lfsWriteHTTPError(w, requestID, session.Topic, http.StatusBadGateway, "s3_upload_failed", err.Error())
+		return
+	}
+	m.logger.Info("http chunked upload part stored", "requestId", logSafe(requestID), "uploadId", logSafe(sessionID), "part", partNumber, "etag", logSafe(etag), "bytes", len(body))
+
+	// Feed the running hashes only once the part is stored: a part whose S3
+	// upload failed is retried with the same number and must not be hashed twice.
 	if _, err := session.sha256Hasher.Write(body); err != nil {
 		m.lfsWriteHTTPError(w, requestID, session.Topic, http.StatusBadRequest, "hash_error", err.Error())
 		return
@@ -926,15 +937,6 @@ func (m *lfsModule) handleHTTPUploadPart(w http.ResponseWriter, r *http.Request,
 			return
 		}
 	}
-
-	etag, err := m.s3Uploader.UploadPart(r.Context(), session.S3Key, session.UploadID, partNumber, body)
-	if err != nil {
-		m.metrics.IncS3Errors()
-		m.tracker.EmitUploadFailed(requestID, session.Topic, session.S3Key, "s3_upload_failed", err.Error(), "upload_part", session.TotalUploaded, 0)
-		m.lfsWriteHTTPError(w, requestID, session.Topic, http.StatusBadGateway, "s3_upload_failed", err.Error())
-		return
-	}
-	m.logger.Info("http chunked upload part stored", "requestId", logSafe(requestID), "uploadId", logSafe(sessionID), "part", partNumber, "etag", logSafe(etag), "bytes", len(body))
 
 	session.Parts[partNumber] = etag
 	session.PartSizes[partNumber] = int64(len(body))
